@@ -6,6 +6,11 @@ ALL = ["C%02d" % i for i in range(1, 21)]
 
 # property -> dict(level, text, note, technique, engine, design_ref)
 CLAIMED = {
+  "C09": dict(level="model_checking", engine="E3",
+    text="Model checking of the real language server: (1) explicit-state BFS over canonical document-map states {doc -> (version, text)} for every open/change/close over 2 documents x versions {1,2,3} in any order (stale versions included) x 3 texts, each transition replayed on the real tower-lsp LspService<Backend> with handlers run to completion (100 states, 1 440 judged transitions + 2 360 crash probes for protocol-violating operations); (2) engine E3: for every protocol-valid history of <= 4 (thorough 5) notifications over a 7-operation alphabet, every environment schedule (Deliver next notification / client reads one server message / client answers the oldest server request, <= 4 handlers in flight in a real FuturesUnordered with the real bounded client channel) with <= 2 (thorough 3) deviations from drain-immediately/answer-promptly/deliver-when-idle (quick 8 843, thorough 283 571 schedules), executed in child processes under a watchdog so that a handler blocking the thread is reported as a hang. Oracle: at quiescence the last publishDiagnostics of every open document carries the highest received version and that text's findings. Part A (same findings across CLI output styles, --stdin, sg test and LSP) is merged into the same evidence by pychecks/c09_cli.py when present.",
+    note="The executor replaces real socket timing by explicit Deliver/Drain/Answer steps and reproduces Server::serve's structure, it is not Server::serve itself; states with equal reference document maps are merged; equal-version changes, re-open without close and change-before-open are only probed for crashes.",
+    technique="explicit-state BFS over notification histories plus stateless deviation-bounded exploration of environment schedules on the real async handlers (controlled single-threaded executor)",
+    design_ref="DESIGN.md §3 C09, Appendix B.2"),
   "C16": dict(level="exploration", engine="E1-CLI",
     text="Bounded-exhaustive exploration of the real binary's output: every file content that is a sequence of <= 3 (thorough <= 4) line kinds from {ASCII statement, multi-byte inside the match, multi-byte before the match, CRLF line, 600-column line, blank, non-matching, two-line match, multi-argument calls, ...}, with/without final newline, x 127 output modes (run foo($A) / foo($$$ARGS) / -r rewrite x --json=pretty|stream|compact x -A/-B in {0,1,2}^2 and -C 1|2; scan -r with string and expandEnd fix x 3 styles; plain report --color never --heading never x the same contexts), plus every directory of <= 3 (thorough 4) files over {1 match, 2 matches, no match}; every JSON record (text, range, lines, charCount), meta-variable node, replacementOffsets, JSON well-formedness and every path:line:text entry is compared with a reference computed from the file bytes. Quick: 2 712 CLI runs, 353 010 records, 1.4e6 positions.",
     note="JavaScript only; where the statement is silent (whether the CR of a CRLF terminator belongs to the line text; whether the empty string after the final newline is a context line) both readings are accepted and counted in the evidence; plain-report rows that are not path:line:text are not judged.",
